@@ -1282,6 +1282,16 @@ impl Explorer {
     }
 
     pub fn explore<A: PmCont>(&mut self, prefix: &mut Vec<Op>) {
+        // once a violation is on record the verdict of this unit is fixed (exit 1): a subject that
+        // leaks a region per refusal makes every later kernel-view scan slower and slower, so the
+        // rest of the space is abandoned after a grace period instead of being crawled through
+        if !self.fails.is_empty() {
+            let t0 = *EXPLORE_T0.get_or_init(std::time::Instant::now);
+            if t0.elapsed().as_secs() >= 45 {
+                *self.outcomes.entry("exploration-cut-short-after-violation".into()).or_insert(0) += 1;
+                return;
+            }
+        }
         let res = self.execute::<A>(prefix, 0, false);
         self.nodes += 1;
         if !prefix.is_empty() {
@@ -1306,6 +1316,8 @@ impl Explorer {
         }
     }
 }
+
+static EXPLORE_T0: std::sync::OnceLock<std::time::Instant> = std::sync::OnceLock::new();
 
 fn len_class(n: usize) -> String {
     match n {
